@@ -114,7 +114,7 @@ def run(P, rep, tier):
     r3 = rep.rule('C02-R3', 'canonical header rendering: sorted by key, ", "-joined, "#id:", single space, LF, ascii', reference=5)
     r5 = rep.rule('C02-R5', 'length is the length of the bytes written after the header', reference=3)
     r7 = rep.rule('C02-R7', 'indentation: b" " * indent before each line of split_lines(encoded content, newline)', reference=1)
-    r13 = rep.rule('C02-R13', 'text is encoded with the strict error handler (unencodable text is rejected, never written altered)', reference=3)
+    r13 = rep.rule('C02-R13', 'text is encoded once, as a whole, with the strict error handler', reference=3)
     r8 = rep.rule('C02-R8', 'metadata JSON is dumped with indent=4, sort_keys=True, separators (",", ": ")', reference=1)
     wcls = cls
     for meth, kind, prefix in WRITER_CASES:
@@ -182,6 +182,11 @@ def run(P, rep, tier):
                         probs7.add('indentation uses %r, not ASCII spaces' % (concrete(d_.src[2]),))
                 elif isinstance(d_, Unk) and not any(x.src and x.src[0] in ('summary-elem', 'summary') and 'split_lines' in str(x.src[1]) for x in src_chain(d_)):
                     probs7.add('indentation precedes pieces that are not lines of split_lines(content, newline)')
+            from sa.props.common import encoded_piecewise
+            pw = encoded_piecewise(evs, content)
+            if pw is not None:
+                probs13.add('the text is encoded piece by piece (%s) instead of once as a whole: with BOM-emitting codecs every piece carries '
+                            'its own byte order mark, so the bytes are not the encoded text' % norm(pw.node)[:50])
             for e in evs:
                 if e.kind == 'encode' and e.data.get('errors') is not None and not (is_concrete(e.data['errors']) and concrete(e.data['errors']) == 'strict'):
                     probs13.add('text is encoded with the error handler %r: characters the section encoding cannot represent are written as '
